@@ -17,11 +17,18 @@ pub static mut JH: Uf<7, 1, 8> = Uf::new();
 fn pack48(data: &[u8], tag: u64) -> [u64; 7] {
     let n = data.len();
     assert!(n <= JH_MAX, "ideal hashlittle: message longer than the model's 48 bytes");
+    // nested 6 x 8 loops keep the harness-wide unwind bound at 9
     let mut w = [0u64; 7];
-    let mut i = 0;
-    while i < n {
-        w[i / 8] |= (data[i] as u64) << (8 * (i % 8));
-        i += 1;
+    let mut j = 0;
+    while j < 6 {
+        let mut k = 0;
+        while k < 8 {
+            if 8 * j + k < n {
+                w[j] |= (data[8 * j + k] as u64) << (8 * k);
+            }
+            k += 1;
+        }
+        j += 1;
     }
     w[6] = (n as u64) << 32 | tag;
     w
@@ -60,10 +67,16 @@ pub fn md5_compute_ideal<T: AsRef<[u8]>>(data: T) -> md5::Digest {
     let n = d.len();
     assert!(n <= MD_MAX, "ideal md5: message longer than the model's 96 bytes");
     let mut w = [0u64; 13];
-    let mut i = 0;
-    while i < n {
-        w[i / 8] |= (d[i] as u64) << (8 * (i % 8));
-        i += 1;
+    let mut j = 0;
+    while j < 12 {
+        let mut k = 0;
+        while k < 8 {
+            if 8 * j + k < n {
+                w[j] |= (d[8 * j + k] as u64) << (8 * k);
+            }
+            k += 1;
+        }
+        j += 1;
     }
     w[12] = n as u64;
     let o = unsafe { MD.apply_injective(w, [u64::MAX, u64::MAX]) };
